@@ -50,6 +50,8 @@ macro_rules! harnesses {
 
 pub mod selftest;
 pub mod oracle;
+pub mod c02;
+pub mod node;
 pub mod c08;
 pub mod c09;
 pub mod c13;
@@ -61,6 +63,8 @@ pub mod c18;
 
 pub fn all_harnesses() -> Vec<&'static Harness> {
     let mut v: Vec<&'static Harness> = Vec::new();
+    v.extend(c02::HARNESSES.iter());
+    v.extend(node::HARNESSES.iter());
     v.extend(c08::HARNESSES.iter());
     v.extend(c09::HARNESSES.iter());
     v.extend(c13::HARNESSES.iter());
